@@ -56,12 +56,13 @@ class ASTWalker:
             ]
         elif isinstance(node, ClassDef):
             definitions = get_classdef_definitions(node)
-            child_nodes = [
-                _def
-                for _def in definitions
-                if _def.__class__.__name__
-                in {"AssignmentStmt", "FuncDef", "ClassDef", "Decorator", "OverloadedFuncDef"}
-            ]
+            # Enums only consist of their instances, their methods and nested classes are not part of the API
+            child_kinds = (
+                {"AssignmentStmt"}
+                if self.__is_enum(node)
+                else {"AssignmentStmt", "FuncDef", "ClassDef", "Decorator", "OverloadedFuncDef"}
+            )
+            child_nodes = [_def for _def in definitions if _def.__class__.__name__ in child_kinds]
         elif isinstance(node, FuncDef) and node.name == "__init__":
             definitions = get_funcdef_definitions(node)
             child_nodes = [_def for _def in definitions if _def.__class__.__name__ == "AssignmentStmt"]
@@ -73,6 +74,13 @@ class ASTWalker:
 
             self.__walk(child_node, visited_nodes)
         self.__leave(node)
+
+    @staticmethod
+    def __is_enum(node: ClassDef) -> bool:
+        return any(
+            hasattr(superclass, "fullname") and superclass.fullname in ("enum.Enum", "enum.IntEnum")
+            for superclass in node.base_type_exprs
+        )
 
     def __enter(self, node: MypyFile | ClassDef | FuncDef | AssignmentStmt) -> None:
         method = self.__get_callbacks(node)[0]
@@ -93,9 +101,8 @@ class ASTWalker:
             if not hasattr(node, "base_type_exprs"):  # pragma: no cover
                 raise AttributeError("Expected classdef node to have attribute 'base_type_exprs'.")
 
-            for superclass in node.base_type_exprs:
-                if hasattr(superclass, "fullname") and superclass.fullname in ("enum.Enum", "enum.IntEnum"):
-                    class_name = "enumdef"
+            if isinstance(node, ClassDef) and self.__is_enum(node):
+                class_name = "enumdef"
         elif class_name == "mypyfile":
             class_name = "moduledef"
 
